@@ -491,4 +491,25 @@ pub mod props {
         ensures same_candidates(pre, post), // #candidate_list_unchanged_by_a_hidden_parser
     {}
 //@@ end
+
+//@@ lemma
+//@@ unit lemma.C12.shown_name_is_accepted tags=C12
+    /// C12 "Every name shown is accepted by the parser at that level": the names a flag or argument is shown under (ParseFlag::meta /
+    /// ParseArgument::meta are proved to show `first_names(named)`) are names its own eval looks for (`matches_spec`, the matcher
+    /// take_flag / take_arg are proved to use): the short name as `-s`, the long name as `--long`
+    pub proof fn lemma_c12_shown_name_is_accepted(named: NamedArg, m: Meta, os: OsString, typed: String)
+        requires shows_names_of(m, named),
+        ensures
+            first_names(named) matches Ok(ShortLong::Short(c)) ==> named.matches_spec(Arg::Short(c, false, os), false), // #short_name_shown_is_matched
+            first_names(named) matches Ok(ShortLong::Long(l)) && typed@ == l@ ==> named.matches_spec(Arg::Long(typed, false, os), false), // #long_name_shown_is_matched
+            first_names(named) matches Ok(ShortLong::Both(c, l)) ==> named.matches_spec(Arg::Short(c, false, os), false) && (typed@ == l@ ==> named.matches_spec(Arg::Long(typed, false, os), false)),
+    {
+        match first_names(named) {
+            Ok(ShortLong::Short(c)) => { assert(named.short@[0] == c); }
+            Ok(ShortLong::Long(l)) => { assert(named.long@[0] == l); }
+            Ok(ShortLong::Both(c, l)) => { assert(named.short@[0] == c); assert(named.long@[0] == l); }
+            Err(_) => {}
+        }
+    }
+//@@ end
 }
